@@ -7,8 +7,9 @@
 regenerate() builds harness/cmd/gen2coq (cached by a hash of its sources under
 .cache/gen2coq/, in a module of its own so that a broken go.mod of the tree under test
 cannot stop the translator from being built), runs it on lib.vcheck.REPO and installs
-Gen/ErrTables.v and Gen/Consts.v — each file is written only when its content changed, so
-`make` stays incremental. It never raises.
+Gen/ErrTables.v, Gen/Consts.v and Gen/Atomic.v (effects and lock guards of the session manager's
+and the timer map's methods: the granularity of Msv/Mseq; guard lemmas in Proofs/GenAtomic.v) —
+each file is written only when its content changed, so `make` stays incremental. It never raises.
 
 ok == False means: the translator could not be built or run, or did not produce the files
 (the Gen files on disk are then NOT those of the tree under test and nothing may be
@@ -24,7 +25,7 @@ from pathlib import Path
 
 from . import vcheck
 
-GEN_FILES = ["ErrTables.v", "Consts.v"]
+GEN_FILES = ["ErrTables.v", "Consts.v", "Atomic.v"]
 SRC = vcheck.VERIF / "harness" / "cmd" / "gen2coq"
 CACHE = vcheck.VERIF / ".cache" / "gen2coq"
 ERRV = vcheck.COQ / "Model" / "Err.v"
@@ -127,4 +128,21 @@ def unrecognised(info):
     for k in ("enum_reasons", "srv_reasons", "cli_reasons", "const_reasons", "route_reasons"):
         for r in (info or {}).get(k) or []:
             out.append("%s: %s" % (k[:-8], r))
+    for r in ((info or {}).get("atomic") or {}).get("reasons") or []:
+        out.append("atomic: %s" % r)
+    return out
+
+
+def atomic_facts(info):
+    """The atomicity facts of a summary as one line per method: 'TimerMap.Remove: MapRead@WLock/1 TimerStop@WLock/1 ...'
+    (effect@guard/critical section; Gen/Atomic.v holds the same as Coq data)."""
+    out = []
+    a = (info or {}).get("atomic") or {}
+    for ty in ("session", "timermap"):
+        t = a.get(ty) or {}
+        for m in (t.get("methods") or []) + (t.get("callbacks") or []):
+            effs = ["%s%s@%s/%d" % (e["kind"], (" " + e["callee"]) if e.get("callee") else "", e["guard"], e["section"]) for e in m.get("effects") or []]
+            out.append("%s.%s: %s" % (t.get("type"), m["name"], " ".join(effs)))
+    if a.get("store_write_shape"):
+        out.append("store.Write: " + " ".join(a["store_write_shape"]))
     return out
